@@ -113,7 +113,7 @@ func (n Node) Deref() (Node, error) {
 // defaults, enum values) rather than Swagger objects: the library treats such values as opaque JSON, so a "$ref"
 // member inside them is data, not a reference. Names of the generators' alphabet never collide with these keys.
 func IsOpaqueKey(k string) bool {
-	return strings.HasPrefix(k, "x-") || k == "example" || k == "examples" || k == "default" || k == "enum"
+	return strings.HasPrefix(strings.ToLower(k), "x-") || k == "example" || k == "examples" || k == "default" || k == "enum"
 }
 
 // opaqueUnder is IsOpaqueKey in context: "default" directly under a "responses" object is the default response.
